@@ -15,20 +15,29 @@ ARR2 = {"arr": [0, 255, 1, 127, 129, 2, 254, 77], "sarr": [0xFFFF, 0, 0x7FFF, 0x
 
 
 def gen_programs(fams, name="gen"):
-    """Run the generator spec for each family; returns list of {fam, body}."""
-    out = []
-    d = common.workdir("gen_" + name)
-    for fam in fams:
-        cfg = os.path.join(d, "Gen_%s.cfg" % fam)
+    """Run the generator spec (all families in one TLC run, cached by the hash of the spec);
+    returns list of {fam, body} for the requested families."""
+    import hashlib
+    h = hashlib.sha1(open(os.path.join(common.SPEC, "GenProg.tla"), "rb").read()).hexdigest()[:16]
+    cdir = os.path.join(common.WORK, "cache")
+    os.makedirs(cdir, exist_ok=True)
+    cpath = os.path.join(cdir, "genprog_%s.json" % h)
+    if os.path.exists(cpath):
+        progs = json.load(open(cpath))
+    else:
+        d = common.workdir("gen_" + name)
+        cfg = os.path.join(d, "Gen_ALL.cfg")
         with open(cfg, "w") as f:
-            f.write('CONSTANT Fam = "%s"\nINIT Init\nNEXT Next\nINVARIANT Emit\nCHECK_DEADLOCK FALSE\n' % fam)
-        res = common.run_tlc("GenProg", cfg=cfg, name="gen_%s_%s" % (name, fam), tags={"CASE"}, workers=4, heap="4g")
-        common.require_ok(res, "GenProg " + fam)
+            f.write('CONSTANT Fam = "ALL"\nINIT Init\nNEXT Next\nINVARIANT Emit\nCHECK_DEADLOCK FALSE\n')
+        res = common.run_tlc("GenProg", cfg=cfg, name="gen_%s" % name, tags={"CASE"}, workers=4, heap="6g")
+        common.require_ok(res, "GenProg")
         progs = [o for (_, o) in res.lines]
         progs.sort(key=lambda o: json.dumps(o, sort_keys=True))
-        out += progs
-        log("GenProg %s: %d programs (%.1fs)" % (fam, len(progs), res.wall))
-    return out
+        tmp = cpath + ".%d" % os.getpid()
+        json.dump(progs, open(tmp, "w"))
+        os.replace(tmp, cpath)
+        log("GenProg: %d programs enumerated by TLC (%.1fs)" % (len(progs), res.wall))
+    return [p for p in progs if p["fam"] in fams]
 
 
 def index_vars(body):
@@ -195,7 +204,7 @@ class Pipeline:
             obsn = c.get("obs") or [n for n in vt if n not in ("X", "Y") and (n in vocab.DECL or n in c.get("obs_extra", ())) and not vt[n].get("rom")]
             maxlen = max(len(v["code"]) for v in uniq)
             tcases.append(dict(id=c["id"], vt=vt, fs=vocab.fs_for(c.get("fnames", ())), body=c.get("body", []), fuel=fuel, obs=obsn,
-                               regions=regions, variants=uniq if pair else uniq, tmp=link.TMP_ADDR, sem=bool(sem and c.get("body") is not None),
+                               regions=regions, variants=uniq, tmp=link.TMP_ADDR, prefix=bool(c.get("prefix", False)), sem=bool(sem and c.get("body") is not None),
                                pair=bool(pair and len(uniq) > 1), inputs=[dict(inp=i) for i in inputs], _maxlen=maxlen, _src=c["variants"][0]["src"], _fam=c["fam"]))
             if len(self.samples) < 6 and (st["programs"] % 97 == 1):
                 self.samples.append(dict(id=c["id"], fam=c["fam"], src=c["variants"][0]["src"], input=inputs[0],
@@ -255,3 +264,23 @@ class Pipeline:
         st["states"] += res.distinct
         st["transitions"] += res.generated
         log("%s: Refine %d behaviours, %d states, %d mismatching behaviours, %.1fs" % (self.name, res.init_states, res.distinct, len(self.mismatches), res.wall))
+
+
+def run_tcases(name, tcases, timeout=1500):
+    """Run Refine.tla on ready-made cases (used by checks that do not go through compile()).
+    Returns (mismatches, cut_count, TlcResult)."""
+    d = common.workdir("ref_" + name)
+    f2 = os.path.join(d, "cases.ndjson")
+    with open(f2, "w") as f:
+        for t in tcases:
+            f.write(json.dumps({k: v for k, v in t.items() if not k.startswith("_")}) + "\n")
+    mms, cut = [], [0]
+
+    def on_mm(tag, o):
+        if tag == "MM":
+            mms.append(o)
+        else:
+            cut[0] += 1
+    res = common.run_tlc("Refine", env={"CASES": f2}, name="ref_" + name, tags={"MM", "CUT"}, on_line=on_mm, timeout=timeout)
+    common.require_ok(res, "Refine")
+    return mms, cut[0], res
